@@ -178,17 +178,77 @@ func c19Tables(p *core.Program, r *core.Report) {
 		r.Check(n >= 1 && okb, "C19.tables", "util/dateutil.newDateTimeHelper base instant", at, "2000-01-01 00:00:00.000", "the base instant is not 2000-01-01 00:00:00")
 	}
 	if fi := p.Method("util/dateutil", "DateTimeHelper", "open"); fi != nil {
+		// the weekday label table, by shape: the package-level table of exactly seven constant texts
+		// (positional, or keyed by constants such as time.Sunday), under whatever name
 		wd := lit("wday")
+		wdName := "wday"
+		if len(wd) != 7 {
+			for _, f := range pk.Syntax {
+				for _, d := range f.Decls {
+					gd, ok := d.(*ast.GenDecl)
+					if !ok || gd.Tok != token.VAR {
+						continue
+					}
+					for _, sp := range gd.Specs {
+						vs := sp.(*ast.ValueSpec)
+						for i, nm := range vs.Names {
+							if i >= len(vs.Values) {
+								continue
+							}
+							cl, ok := vs.Values[i].(*ast.CompositeLit)
+							if !ok || len(cl.Elts) != 7 {
+								continue
+							}
+							labels := make([]string, 7)
+							good := true
+							for pos, el := range cl.Elts {
+								k, val := int64(pos), el
+								if kv, ok := el.(*ast.KeyValueExpr); ok {
+									kk, ok := constIntOf(info, kv.Key)
+									if !ok {
+										good = false
+										break
+									}
+									k, val = kk, kv.Value
+								}
+								tv, ok := info.Types[val]
+								if !ok || tv.Value == nil || tv.Value.Kind() != constant.String || k < 0 || k > 6 {
+									good = false
+									break
+								}
+								labels[k] = constant.StringVal(tv.Value)
+							}
+							if good {
+								wd, wdName = labels, nm.Name
+							}
+						}
+					}
+				}
+			}
+		}
 		start := int64(-1)
 		finfo := fi.Pkg.TypesInfo
-		// the local that indexes the weekday table, and the constant it starts from
+		// the local that indexes the weekday table (directly, or stored in the day and used as the index
+		// by an accessor), and the constant it starts from
 		var idxObj types.Object
 		ast.Inspect(fi.Decl.Body, func(m ast.Node) bool {
 			if ix, ok := m.(*ast.IndexExpr); ok {
-				if id, ok := ast.Unparen(ix.X).(*ast.Ident); ok && id.Name == "wday" {
+				if id, ok := ast.Unparen(ix.X).(*ast.Ident); ok && id.Name == wdName {
 					if o := finfo.ObjectOf(id); o != nil && o.Parent() == o.Pkg().Scope() {
 						if iid, ok := ast.Unparen(ix.Index).(*ast.Ident); ok {
 							idxObj = finfo.ObjectOf(iid)
+						}
+					}
+				}
+			}
+			// day.wday = wd with wd an integer-typed local: the weekday number itself is stored
+			if as, ok := m.(*ast.AssignStmt); ok && len(as.Lhs) == 1 && len(as.Rhs) == 1 && idxObj == nil {
+				if sel, ok := ast.Unparen(as.Lhs[0]).(*ast.SelectorExpr); ok && strings.Contains(strings.ToLower(sel.Sel.Name), "wday") {
+					if rid, ok := ast.Unparen(stripConvs(finfo, as.Rhs[0])).(*ast.Ident); ok {
+						if o, isVar := finfo.ObjectOf(rid).(*types.Var); isVar && !o.IsField() && isBasicType(o.Type()) {
+							if b, ok := o.Type().Underlying().(*types.Basic); ok && b.Info()&types.IsInteger != 0 {
+								idxObj = o
+							}
 						}
 					}
 				}
@@ -613,6 +673,11 @@ func c19Pad(p *core.Program, r *core.Report) {
 func c19FormatParse(p *core.Program, r *core.Report) {
 	ff := p.Method("util/dateutil", "DateFormat", "format")
 	pf := p.Method("util/dateutil", "DateFormat", "Parse")
+	if ff == nil {
+		// the renderer under another name / as a function: whatever Format reaches that loops over the
+		// pattern text
+		ff = patternLoopFunc(p, p.Method("util/dateutil", "DateFormat", "Format"), 0)
+	}
 	if ff == nil || pf == nil {
 		r.Undec("C19.format-parse", "util/dateutil.DateFormat", "-", "format/Parse not found")
 		return
@@ -664,11 +729,20 @@ func c19FormatParse(p *core.Program, r *core.Report) {
 		}
 		chObj := info.Defs[vid]
 		callee := func(call *ast.CallExpr) ([]types.Object, *ast.BlockStmt) {
-			id, ok := ast.Unparen(call.Fun).(*ast.Ident)
-			if !ok {
+			var id *ast.Ident
+			switch f := ast.Unparen(call.Fun).(type) {
+			case *ast.Ident:
+				id = f
+			case *ast.SelectorExpr:
+				id = f.Sel // a method of a small helper type (w.field(ch)): judged by its parameters
+			}
+			if id == nil {
 				return nil, nil
 			}
 			fnObj, _ := info.Uses[id].(*types.Func)
+			if fnObj == nil {
+				return nil, nil
+			}
 			cfi := p.FuncOf(fnObj)
 			if cfi == nil || cfi.Decl.Body == nil || cfi.Pkg != fi.Pkg {
 				return nil, nil
@@ -786,6 +860,41 @@ func c19FormatParse(p *core.Program, r *core.Report) {
 						} else {
 							w = -2
 						}
+					} else if ps, body := callee(call); body != nil && len(ps) == len(call.Args) {
+						// w.number(v, width) wrapping the formatter: the width it passes on, with its
+						// parameters standing for the arguments
+						ast.Inspect(body, func(k ast.Node) bool {
+							ic, ok := k.(*ast.CallExpr)
+							if !ok {
+								return true
+							}
+							is := stripSpaces(types.ExprString(ic.Fun))
+							if strings.HasSuffix(is, ".WriteRune") || strings.HasSuffix(is, ".ReadRune") {
+								unit = "rune"
+							}
+							if strings.HasSuffix(is, ".WriteByte") || strings.HasSuffix(is, ".ReadByte") {
+								unit = "byte"
+							}
+							if len(ic.Args) != 2 || !strings.HasSuffix(is, fn) {
+								return true
+							}
+							sub := map[types.Object]int64{}
+							okAll := true
+							for i, po := range ps {
+								if v, ok := tryInt(call.Args[i]); ok {
+									sub[po] = v
+								} else if id, isId := ast.Unparen(ic.Args[1]).(*ast.Ident); isId && info.ObjectOf(id) == po {
+									okAll = false
+								}
+							}
+							ev := &ordEval{info: info, side: func(ast.Expr) (string, string) { return "", "" }, ints: sub, bools: map[string]bool{}}
+							if n := ev.evalInt(ic.Args[1]); ev.err == "" && okAll {
+								w = n
+							} else {
+								w = -2
+							}
+							return true
+						})
 					}
 					if strings.HasSuffix(s, ".WriteRune") || strings.HasSuffix(s, ".ReadRune") {
 						unit = "rune"
@@ -873,6 +982,16 @@ func c19FormatParse(p *core.Program, r *core.Report) {
 					case *ast.AssignStmt:
 						scanCalls(v)
 						if tableLookup(v) {
+							continue
+						}
+						if len(v.Lhs) > 1 && len(v.Rhs) == 1 {
+							// v, width, ok := w.field(ch): the helper interpreted with the letter known
+							if call, isCall := ast.Unparen(v.Rhs[0]).(*ast.CallExpr); isCall {
+								if _, body := callee(call); body != nil {
+									ev := &ordEval{info: info, side: func(ast.Expr) (string, string) { return "", "" }, ints: ints, bools: bools, sels: sels, callee: callee}
+									ev.run([]ast.Stmt{v})
+								}
+							}
 							continue
 						}
 						if len(v.Lhs) == len(v.Rhs) {
@@ -1198,4 +1317,44 @@ func c19Base10(p *core.Program, r *core.Report) {
 			fileProbs(r, "C19.format-parse", core.FuncName(fi.Obj)+" base", p.Pos(fi.Decl.Pos()), probs, "fields are parsed as decimal numbers")
 		}
 	}
+}
+
+// patternLoopFunc: the function reachable from start (same package, depth <= 3) whose body ranges over
+// text (a string or a slice of runes/bytes) — the renderer of a pattern.
+func patternLoopFunc(p *core.Program, start *core.FuncInfo, depth int) *core.FuncInfo {
+	if start == nil || start.Decl.Body == nil || depth > 3 {
+		return nil
+	}
+	info := start.Pkg.TypesInfo
+	found := false
+	ast.Inspect(start.Decl.Body, func(n ast.Node) bool {
+		if rs, ok := n.(*ast.RangeStmt); ok && rs.Value != nil {
+			switch xt := info.TypeOf(rs.X).Underlying().(type) {
+			case *types.Basic:
+				if xt.Info()&types.IsString != 0 {
+					found = true
+				}
+			case *types.Slice:
+				if b, ok := xt.Elem().Underlying().(*types.Basic); ok && b.Info()&types.IsInteger != 0 {
+					found = true
+				}
+			}
+		}
+		return true
+	})
+	if found {
+		return start
+	}
+	var out *core.FuncInfo
+	ast.Inspect(start.Decl.Body, func(n ast.Node) bool {
+		if call, ok := n.(*ast.CallExpr); ok && out == nil {
+			if fn := calleeFunc(info, call); fn != nil && fn.Pkg() == start.Obj.Pkg() {
+				if cf := p.FuncOf(fn); cf != nil && cf != start {
+					out = patternLoopFunc(p, cf, depth+1)
+				}
+			}
+		}
+		return true
+	})
+	return out
 }
